@@ -4,6 +4,7 @@
    sink first and returns on its failure, then the file sink; the response is written only when
    PublishAudit returned nil. -/
 import Relic.Model.SignFlow
+import Relic.Driver.C06Rec
 namespace Relic.Driver.C06
 open Relic.SignFlow
 
@@ -40,6 +41,7 @@ def outcome (fmode amode : String) (valid : Bool) : Result :=
   runTop cfg publish flow script
 
 def handle : List String → String
+  | "rec" :: rest => Relic.Driver.C06Rec.handle ("rec" :: rest)
   | kind :: fmode :: amode :: _pre :: n :: reqs =>
     if kind != "seq" && kind != "conc" then "bad-op" else
     match n.toNat?, reqs.mapM validReq with
